@@ -91,6 +91,13 @@ func blsSuite[
 	dst, err := sch.CipherSuite().GetDst(sch.RogueKeyPreventionAlgorithm(), sch.Variant())
 	must(err)
 	popDst := sch.CipherSuite().GetPopDst(sch.Variant())
+	// the published ciphersuite identifiers (draft-irtf-cfrg-bls-signature section 4.2) are constants of the harness: the
+	// known-secret identity of an honest signature / proof of possession is evaluated under THEM, not under what the library says
+	grp := map[bool]string{true: "G2", false: "G1"}[strings.HasPrefix(name, "bls-short-")] // short keys: signatures in G2
+	pubDst := "BLS_SIG_BLS12381" + grp + "_XMD:SHA-256_SSWU_RO_" + map[string]string{"basic": "NUL_", "aug": "AUG_", "pop": "POP_"}[mode]
+	pubPopDst := "BLS_POP_BLS12381" + grp + "_XMD:SHA-256_SSWU_RO_POP_"
+	emit("vector", map[string]any{"kind": "bls-dst-sig", "file": name, "expected": pubDst, "got": dst})
+	emit("vector", map[string]any{"kind": "bls-dst-pop", "file": name, "expected": pubPopDst, "got": popDst})
 	rawPK := func(v PK) *tPK { return &tPK{PublicKeyTrait: signatures.PublicKeyTrait[PK, S]{V: v}} }
 	newKey := func() (*tSK, *tPK) {
 		g, err := sch.Keygen()
@@ -178,8 +185,8 @@ func blsSuite[
 			continue
 		}
 		ev["selfv"] = verifier().Verify(sig, pk, msg) == nil
-		ev["orcEq"] = sig.Value().Equal(hx(dst, processed(msg, pk.Value()), sk.Value()))
-		ev["popEq"] = mode != "pop" || (sig.Pop() != nil && sig.Pop().Value().Equal(hx(popDst, pk.Value().Bytes(), sk.Value())))
+		ev["orcEq"] = sig.Value().Equal(hx(pubDst, processed(msg, pk.Value()), sk.Value()))
+		ev["popEq"] = mode != "pop" || (sig.Pop() != nil && sig.Pop().Value().Equal(hx(pubPopDst, pk.Value().Bytes(), sk.Value())))
 		emit("bsign", ev)
 
 		third := sign(sk3, msg)
